@@ -51,6 +51,7 @@ EXCS = {
     4: ('ZeroDivisionError', ['division by zero']), 5: ('KeyboardInterrupt', []), 6: ('CustomBase', ['b']),
     7: ('OSError', ['plain os error']), 8: ('CustomError', ['x' * 70000]), 9: ('AssertionError', ['a']),
     10: ('StopIteration', [5]), 11: ('GeneratorExit', []),
+    12: ('TwoArgError', [1, 'two']),      # a class whose constructor cannot be called with one argument
 }
 # sys.exit argument universe: id -> python value
 EXITS = {0: None, 1: 0, 2: 3, 3: 1, 4: 'bye', 5: 255, 6: 77, 7: '', 8: 256, 9: 2, 10: -1, 11: True, 12: False, 13: 2.5}
@@ -62,6 +63,12 @@ class CustomError(Exception):
 
 class CustomBase(BaseException):
     pass
+
+
+class TwoArgError(Exception):
+    def __init__(self, code, text):
+        super().__init__(code, text)
+        self.code, self.text = code, text
 
 
 class KillOnPickle(Exception):
@@ -90,6 +97,8 @@ def _exc_class(name):
         return CustomError
     if name == 'CustomBase':
         return CustomBase
+    if name == 'TwoArgError':
+        return TwoArgError
     import builtins
     return getattr(builtins, name)
 
@@ -143,7 +152,7 @@ def gen_case(rng: random.Random, tier: str, kind=None):
 def boundary_cases():
     """every outcome class x phase x first accessor at least once (small product, see c12.py)"""
     cases = []
-    reps = [['ret', None], ['ret', 5], ['raise', 0], ['raise', 3], ['exit', 0], ['exit', 1], ['exit', 2], ['exit', 4]]
+    reps = [['ret', None], ['ret', 5], ['raise', 0], ['raise', 3], ['raise', 12], ['exit', 0], ['exit', 1], ['exit', 2], ['exit', 4]]
     k = 0
     for oc in reps:
         for first in ACCESSORS:
